@@ -1768,6 +1768,9 @@ class Interp:
         if d == "builtins.callable":
             return isinstance(args[0], (Closure, Bound, ClassVal, BuiltinType, Ext)) or \
                 (isinstance(args[0], Rec) and args[0].cls.lookup("__call__")[0] is not None) or callable(args[0]) and not is_sym(args[0])
+        if d == "builtins.open":
+            self.effect("open", tuple(args), tuple(sorted(kwargs.items())))
+            return sym.var("file", "obj")
         if d == "builtins.print":
             self.effect("print", tuple(args), kwargs.get("file"))
             return None
